@@ -31,14 +31,16 @@ def handleSync (c : J) : Res := Id.run do
   let result := c.getD "result"
   let mut r : Res := { sig := (J.obj [("cfg", c.getD "cfg"), ("cache", c.getD "cache"), ("calls", c.getD "calls")]).render }
   -- correspondence: replay the model against the recorded responses
-  let prog : Prog Final :=
+  let hidden : Hidden := { memo := memoOfJ (c.getD "memoBefore"), customize := c.opt "customizeCached" }
+  let prog : Prog FinalH :=
     if s.composite then
       let (ns, name) := splitKey (c.getStr "key")
-      syncCompositeFull s.cfg s.cache ns name (c.getStr "revName")
+      syncCompositeFull s.cfg s.cache ns name (c.getStr "revName") hidden
     else
       let parts := (c.getStr "key").splitOn ":"
-      syncDecorator s.dcfg s.cache (parts.getD 0 "") (parts.getD 1 "") (parts.getD 2 "") (":".intercalate (parts.drop 3))
-  let (fin, st) := replay prog { recs := s.calls.map (·, false) } 600
+      syncDecoratorFull s.dcfg s.cache (parts.getD 0 "") (parts.getD 1 "") (parts.getD 2 "") (":".intercalate (parts.drop 3)) hidden
+  let (finH, st) := replay prog { recs := s.calls.map (·, false) } 600
+  let fin := finH.map (·.final)
   for m in st.mismatches do r := disagree r m
   match fin with
   | none => pure ()
